@@ -65,6 +65,10 @@ def clause_seq(toks):
     return out
 
 
+# the clause a method addresses (mirrors J_C13!ClauseOf)
+CLAUSE_OF = {"select": "SELECT", "selectstr": "SELECT", "distinct": "SELECT", "groupby": "GROUP BY", "groupbystr": "GROUP BY", "orderby": "ORDER BY",
+             "orderbystr": "ORDER BY", "limit": "LIMIT", "fetch_next": "LIMIT", "insert": "VALUES", "replace": "VALUES",
+             "on_conflict": "ON CONFLICT", "do_nothing": "ON CONFLICT", "do_update": "ON CONFLICT"}
 SCHEMA = ["CREATE TABLE t1 (a, b, c)", "CREATE TABLE t2 (a, b, c)"]
 SQLITE_UNSUPPORTED = {"for_update", "force_index", "use_index", "prewhere"}
 
@@ -125,7 +129,9 @@ def run(tier: str) -> int:
                                    "balanced": lexer.balanced(toks) and not any(t["t"] == "err" for t in toks), "_sql": text})
                     ms = [c["m"] for c in p["calls"]]
                     outside = (set(ms) & SQLITE_UNSUPPORTED) or ("delete" in ms and "join" in ms) or ("offset" in ms and "limit" not in ms) \
-                        or (text.startswith("SELECT") and " INTO " in text)  # SELECT..INTO, DELETE..JOIN are not SQLite; OFFSET alone is C09's
+                        or (text.startswith("SELECT") and " INTO " in text) \
+                        or ("on_conflict" in ms and "select" in ms and "where" not in ms)
+                    # SELECT..INTO, DELETE..JOIN are not SQLite; OFFSET alone is C09's; upsert from a SELECT without WHERE is C03's
                     if d == "sqlite" and text and not rexc and not any(excs) and not outside:
                         engine_checked += 1
                         err = sqlite_prepare(text)
@@ -173,8 +179,8 @@ def run(tier: str) -> int:
                     if o2 is None or p2 < p or o2["text"] == o["text"]:
                         continue
                     m1, m2 = sorted((o["calls"][off + k]["m"], o["calls"][off + k + 1]["m"]))
-                    if m1 == m2:
-                        continue
+                    if CLAUSE_OF.get(m1, m1) == CLAUSE_OF.get(m2, m2):
+                        continue  # two calls to one clause accumulate in call order: not a commutation claim
                     found = True
                     rep.discrepancy([["order-dependent", fam, d, m1, m2]],
                                     {"family": fam, "dialect": d, "order_1": o["calls"], "sql_1": o["_sql"], "order_2": o2["calls"], "sql_2": o2["_sql"]},
